@@ -2,3 +2,4 @@ import GwcsProofs.C01
 import GwcsProofs.C07
 import GwcsProofs.C08
 import GwcsProofs.C14
+import GwcsProofs.C03
